@@ -552,13 +552,19 @@ static size_t bundle_ring_length(ring_t *ring)
 {
     unsigned pos = 8+8;//goto first length field
     uint32_t advance = 0;
+    const size_t len = ring[0].len+ring[1].len;
     do {
         advance = deref(pos+0, ring) << (8*3) |
                   deref(pos+1, ring) << (8*2) |
                   deref(pos+2, ring) << (8*1) |
                   deref(pos+3, ring) << (8*0);
-        if(advance)
+        if(advance) {
+            //the element has to fit into the available data
+            //(this also keeps pos from wrapping around)
+            if(pos+4 > len || advance > len-(pos+4))
+                return 0;
             pos += 4+advance;
+        }
     } while(advance);
 
     return pos <= (ring[0].len+ring[1].len) ? pos : 0;
